@@ -253,6 +253,7 @@ Proof.
   - eapply quiet_ledger; [eapply driver_quiet; eauto|exact I].
   - destruct H as (_ & _ & _ & R & _). eapply quiet_ledger; [apply quiet_same; eauto|exact I].
   - exact I.
+  - eapply quiet_ledger; [eapply perform_quiet; eauto|]. eapply transition_ledger; eauto.
 Qed.
 
 Theorem ledger_invariant init ops : forall s0, vkeys s0 -> Inv_ledger init s0 -> Forall op_ok ops ->
